@@ -17,7 +17,8 @@ tie the scratch-state tracking of the Lean object machines (which steps overwrit
 
 `hist` lines are also answered by the Lean object model (lean/Model/Objects.lean via lean/Driver/HistD.lean): model column =
 probe after the history on the model, spec column = probe on the fresh model object.  `histp` lines are predicate-only
-(kinds or steps the Lean object model does not cover: Skein, Threefish, CRC helpers, SHAKE helpers): run_impl itself
+(steps the Lean object model does not cover: CRC helpers, SHAKE helpers, exactsum, Blake2 calls outside the documented
+parameter domain): run_impl itself
 returns `same` / `DIFF:<probe after history>|<probe on fresh>` and the driver answers the constant `same`."""
 from props.common import *
 import os, sys, itertools, importlib
@@ -40,7 +41,7 @@ TRUSTED = ['the fresh object of the predicate is built by the same constructor c
            'over all states satisfying the cache invariant that every operation is proved to preserve) so imprecision there cannot make them unsound',
            'tools/gen_items/objects.py (AST inventory of assigned attributes, module singletons, mutable defaults) is trusted to read the source faithfully']
 ASSUMPTIONS = ['python -O (asserts stripped) is out of scope',
-               '`histp` lines (Skein, Threefish: no Lean model in the tree yet; CRC/SHAKE/exactsum helper functions; Blake2 calls outside the '
+               '`histp` lines (CRC/SHAKE/exactsum helper functions; Blake2 calls outside the '
                'documented parameter domain: salt/pers of a wrong length, keylen > 64) are predicate-only: the real object after the history is '
                'compared with a fresh real object; the Lean driver answers the constant `same` for them',
                'steps are method calls of the public API; assigning attributes from outside or mutating a returned key schedule is not a call',
@@ -50,11 +51,12 @@ ASSUMPTIONS = ['python -O (asserts stripped) is out of scope',
                'ECB/CBC over Nullpadding: dec strips pad.padcnt bits, a number only the last enc on the same object knows (zero padding is not '
                'self-describing); recorded as known finding C10-nullpad-remove, the admissible paddings are pkcs7/X923/bitpadding/nopadding',
                'user-supplied counter objects of CTR (anything but None/bytes -> DefaultCounter) are outside the model']
-LEVEL_TEXT = ('proof: for every object kind with a Lean model (MD4/MD5/SHA-0/1/2, Keccak/SHA3 + keccak_* singletons, MD6, Blake + blake*, Blake2 + '
-              'blake2b/2s, HMAC, TLSH + tlsh, Nilsimsa, AES, DES, TDEA, Serpent, ECB/CBC/CTR/CTS_*, Salsa20, Chacha) the two per-kind theorems '
+LEVEL_TEXT = ('proof: for every object kind (MD4/MD5/SHA-0/1/2, Keccak/SHA3 + keccak_* singletons, MD6, Blake + blake*, Blake2 + '
+              'blake2b/2s, Skein, HMAC, TLSH + tlsh, Nilsimsa, AES, DES, TDEA, Serpent, Threefish, ECB/CBC/CTR/CTS_*, Salsa20, Chacha) the two per-kind theorems '
               'X_cfg_preserved / X_result_depends_on_cfg and the generic corollary history_independent (one induction over the operation list, '
               'interleavings with sibling instances / singletons via Machine.pair) are proved at full strength; the state-field inventory of '
-              'the live source is proved equal to the field lists of the state structures. Skein and Threefish: correspondence level only.')
+              'the live source is proved equal to the field lists of the state structures (Skein: scratch `G`, configuration = the constructor-only '
+              'attributes; Threefish: no scratch, configuration = the constructor-only attributes incl. the key-schedule word lists).')
 LEVEL_NOTE = ('the tie between the object machines and the code is the correspondence stream (hist: code/model/fresh-model three-way; histo: '
               'scratch-state tracking through streaming operations) plus the regenerated attribute inventory; one known finding '
               '(Nullpadding as the padding class of ECB/CBC) with a kernel-checked counter-example theorem')
@@ -650,10 +652,12 @@ def universe(tier):
     a2, p2 = blake2_alpha(512, False)
     add('histp', 'Blake2', [512], ([a for a in a2 if a not in blake2_alpha(512)[0]] + a2[:2] + [a for a in a2 if a.startswith('update')][:2], p2[:3]))
     if full: add('hist', 'blake2s', [], blake2_alpha(256))
-    add('histp', 'Skein', [256, 256, '-', '-', '-', 'l0,0,0'], skein_alpha(None))
-    add('histp', 'Skein', [512, 512, hx(b'kk'), hx(b'p'), hx(b'n'), 'l0,0,0'], skein_alpha(None))
-    add('histp', 'Skein', [256, 256, '-', '-', '-', 'l1,1,3'], skein_alpha(None))
-    if full: add('histp', 'Skein', [1024, 1100, 'x', '-', '-', 'l0,0,0'], skein_alpha(None))
+    add('hist', 'Skein', [256, 256, '-', '-', '-', 'l0,0,0'], skein_alpha(None))
+    add('hist', 'Skein', [512, 512, hx(b'kk'), hx(b'p'), hx(b'n'), 'l0,0,0'], skein_alpha(None))
+    add('hist', 'Skein', [256, 256, '-', '-', '-', 'l1,1,3'], skein_alpha(None))
+    if full:
+        add('hist', 'Skein', [1024, 1100, 'x', '-', '-', 'l0,0,0'], skein_alpha(None))
+        add('hist', 'Skein', [512, 200, hx(msg(70, 61)), '-', hx(msg(9, 62)), 'l2,1,2'], skein_alpha(None))
     for alg, key in (('sha256', hx(b'key')), ('md5', hx(msg(80, 12))), ('sha1', '-')) + ((('sha512', hx(msg(150, 14))), ('md4', hx(msg(64, 15)))) if full else ()):
         add('hist', 'HMAC', [alg, key], hmac_alpha(alg))
     add('hist', 'TLSH', [128, 5, 1], tlsh_alpha(None))
@@ -670,8 +674,9 @@ def universe(tier):
     if full: add('hist', 'TDEA', [hx(K24), '-', '-'], cipher_alpha('TDEA', None))
     add('hist', 'Serpent', [hx(K16)], cipher_alpha('Serpent', None))
     if full: add('hist', 'Serpent', [hx(K32)], cipher_alpha('Serpent', None))
-    add('histp', 'Threefish', [hx(K32), hx(IV16)], cipher_alpha('Threefish', [hx(K32)]))
-    if full: add('histp', 'Threefish', [hx(msg(64, 59)), hx(IV16)], cipher_alpha('Threefish', [hx(msg(64, 59))]))
+    add('hist', 'Threefish', [hx(K32), hx(IV16)], cipher_alpha('Threefish', [hx(K32)]))
+    add('hist', 'Threefish', [hx(msg(128, 60)), hx(msg(16, 63))], cipher_alpha('Threefish', [hx(msg(128, 60))]))
+    if full: add('hist', 'Threefish', [hx(msg(64, 59)), hx(IV16)], cipher_alpha('Threefish', [hx(msg(64, 59))]))
     # modes over the toy ciphers (both sides model them) and over real ciphers
     for pad in ('pkcs7', 'X923', 'bitpadding', 'nopadding'):
         if full or pad in ('pkcs7', 'nopadding'):
@@ -688,6 +693,8 @@ def universe(tier):
     if full:
         cfg = ['Serpent', 16, hx(K16), hx(IV16), 'X923']; add('hist', 'CBC', cfg, mode_alpha('CBC', cfg))
         cfg = ['TDEA', 8, hx(K16), 'pkcs7']; add('hist', 'ECB', cfg, mode_alpha('ECB', cfg))
+        cfg = ['Threefish', 32, hx(K32), hx(msg(32, 64)), 'pkcs7']; add('hist', 'CBC', cfg, mode_alpha('CBC', cfg))
+        cfg = ['Threefish', 64, hx(msg(64, 59)), '-']; add('hist', 'CTR', cfg, mode_alpha('CTR', cfg))
     cfg = ['rot', 8, hx(K8), 'Nullpadding']; add('hist', 'ECB', cfg, mode_alpha('ECB', cfg), 'known')
     add('hist', 'Salsa20', [hx(K32), 8], stream_alpha('Salsa20', None), 'slow')
     add('hist', 'Salsa20', [hx(K16), 20], stream_alpha('Salsa20', None), 'slow')
